@@ -260,17 +260,17 @@ func runPath(prog *ssa.Program, fn *ssa.Function, cfg ExploreConfig, solver *Sol
 			p.endKind, p.endMsg = "unsupported", string(r)
 		case targetPanic:
 			p.endKind = "panic"
-			p.failHere("unexpected panic: "+clip(toString(r.v), 200), "panic", "")
+			p.failHere("unexpected panic: "+clip(toString(r.v), 200)+" @ "+clip(p.internalAt, 300), "panic", "")
 		case runtimeError:
 			p.endKind = "panic"
-			p.failHere("unexpected run-time panic: "+string(r), "panic", "")
+			p.failHere("unexpected run-time panic: "+string(r)+" @ "+clip(p.internalAt, 400), "panic", "")
 		case runtime.Error:
 			msg := r.Error()
 			if strings.Contains(msg, "interface conversion") || strings.Contains(msg, "reflect") {
 				p.endKind, p.endMsg = "internal", clip(msg, 300)+" in "+p.internalAt
 			} else {
 				p.endKind = "panic"
-				p.failHere("unexpected run-time panic: "+clip(msg, 200), "panic", "")
+				p.failHere("unexpected run-time panic: "+clip(msg, 200)+" @ "+clip(p.internalAt, 400), "panic", "")
 			}
 		default:
 			p.endKind, p.endMsg = "internal", clip(fmt.Sprint(r), 300)+" in "+p.internalAt
